@@ -723,20 +723,41 @@ func panicSites(p *packages.Package) []string {
 				return true
 			})
 			add := func(kind string, n ast.Node) { out = append(out, fn+": "+kind+" "+src(n)) }
+			// an index expression inside an `if` condition is guarded (or not) by the rest of that very condition: the
+			// condition is part of the fact
+			inCond := map[ast.Node]ast.Expr{}
+			ast.Inspect(fd.Body, func(n ast.Node) bool {
+				if is, ok := n.(*ast.IfStmt); ok && is.Cond != nil {
+					ast.Inspect(is.Cond, func(m ast.Node) bool {
+						if ie, ok := m.(*ast.IndexExpr); ok {
+							inCond[ie] = is.Cond
+						}
+						return true
+					})
+				}
+				return true
+			})
+			addIndex := func(x *ast.IndexExpr) {
+				if c, ok := inCond[x]; ok {
+					out = append(out, fn+": index "+src(x)+" within "+src(c))
+				} else {
+					add("index", x)
+				}
+			}
 			ast.Inspect(fd.Body, func(n ast.Node) bool {
 				switch x := n.(type) {
 				case *ast.IndexExpr:
 					if tv, ok := p.TypesInfo.Types[x.X]; ok {
 						switch u := tv.Type.Underlying().(type) {
 						case *types.Slice, *types.Array:
-							add("index", x)
+							addIndex(x)
 						case *types.Basic:
 							if u.Info()&types.IsString != 0 {
-								add("index", x)
+								addIndex(x)
 							}
 						case *types.Pointer:
 							if _, ok := u.Elem().Underlying().(*types.Array); ok {
-								add("index", x)
+								addIndex(x)
 							}
 						}
 					}
